@@ -311,6 +311,10 @@ func (g *gm) expr(e ast.Expr) string {
 		if _, ok := x.Type.(*ast.StarExpr); ok && x.Type != nil {
 			return g.expr(x.X)
 		}
+		// … and to an integer type (`offset.(int64)` of a value taken from a cache of int64s): the same choice
+		if id, ok := x.Type.(*ast.Ident); ok && intTypes[id.Name] {
+			return g.expr(x.X)
+		}
 		return "(.call " + g.bad("?expression", x) + " [])"
 	case *ast.UnaryExpr:
 		switch x.Op {
@@ -1106,7 +1110,7 @@ func genGoMiniAll() []*leanFile {
 		[]string{sv + "failover.go", sv + "partition.go"})})
 	out = append(out, &leanFile{name: "GoCursors", raw: genGoMini("GoCursors",
 		[]string{sv + "cursors.go"},
-		map[string][]string{sv + "cursors.go": {"cursorManager.SetCursor"}},
+		map[string][]string{sv + "cursors.go": {"cursorManager.SetCursor", "cursorManager.GetCursor"}},
 		[]string{sv + "cursors.go"})})
 	out = append(out, &leanFile{name: "GoSubscribe", raw: genGoMini("GoSubscribe",
 		[]string{sv + "partition.go"},
